@@ -1,6 +1,6 @@
 (* C08 - Uniquify makes every non-leaf instance unique without changing the design. Property theorems only. *)
 From Coq Require Import List.
-From SV Require Import Base.Base IR.State IR.NS IR.Ops Xform.Clone Xform.Xform Proofs.Inv1a Proofs.Inv2a Proofs.Fresh Proofs.RefK Proofs.NsInv Proofs.InvW Proofs.FieldT Proofs.XformInv Proofs.UniqInv Proofs.CloneFull.
+From SV Require Import Base.Base IR.State IR.NS IR.Ops Xform.Clone Xform.Xform Proofs.Inv1a Proofs.Inv2a Proofs.Fresh Proofs.RefK Proofs.NsInv Proofs.InvW Proofs.FieldT Proofs.XformInv Proofs.UniqInv Proofs.CloneFull Proofs.UniqFull.
 Import ListNotations.
 
 (* "running uniquify again changes nothing": when every instance met by the breadth-first walk
@@ -39,6 +39,35 @@ Theorem C08_keeps_full_invariant_from : forall fuel x n x',
 Proof. exact uniquify_full_inv. Qed.
 Print Assumptions C08_keeps_full_invariant_from.
 
+(* "makes every non-leaf instance unique": in every state reachable by editing calls whose top
+   definition is instantiated only by the (parentless) top instance, after a completed uniquify the walk
+   from the top finds every instance it meets already unique - its definition is a leaf or is referenced
+   by that instance alone - with the same fuel; so running uniquify again changes nothing
+   (C08_unique_is_fixpoint applies). Proofs/UniqFull.v: the walk keeps "processed instances are settled,
+   and the container of every walked instance is the top definition or the solely-referenced definition
+   of a processed instance", which is what stops a later clone from adding a second reference. *)
+Theorem C08_makes_unique : forall ops u f fuel n t dtop x',
+  let s := run ops init in
+  top s n = Some t -> iref s t = Some dtop -> (forall i, iref s i = Some dtop -> i = t) -> par s RChildren t = None ->
+  uniquify fuel (mkX s u f) n = (x', None) ->
+  uniq_clean fuel (st x') (kids (st x') RChildren dtop) = true.
+Proof.
+  intros ops u f fuel n t dtop x' s Ht Hr Hs Hp E.
+  apply (uniquify_makes_unique dtop t fuel (mkX s u f) n x' (reachable_uf ops) Ht Hr Hs Hp E).
+Qed.
+Print Assumptions C08_makes_unique.
+
+Theorem C08_idempotent : forall ops u f fuel n t dtop x',
+  let s := run ops init in
+  top s n = Some t -> iref s t = Some dtop -> (forall i, iref s i = Some dtop -> i = t) -> par s RChildren t = None ->
+  uniquify fuel (mkX s u f) n = (x', None) ->
+  uniq_loop fuel x' (kids (st x') RChildren dtop) = (x', None).
+Proof.
+  intros ops u f fuel n t dtop x' s Ht Hr Hs Hp E. apply uniquify_fixpoint.
+  apply (uniquify_makes_unique dtop t fuel (mkX s u f) n x' (reachable_uf ops) Ht Hr Hs Hp E).
+Qed.
+Print Assumptions C08_idempotent.
+
 (* the same as a step invariant, from any state that satisfies it *)
 Theorem C08_keeps_well_formed_from : forall fuel x n x',
   Inv1a (st x) /\ Inv2a (st x) /\ Fresh (st x) /\ RefK (st x) /\ InvT (st x) ->
@@ -61,13 +90,16 @@ Example C08_sample :
   let s' := st (fst r) in
   snd r = None /\ next s = 13 /\ next s' = 17 /\ kids s' RDefs 1 = [2; 5; 13; 9] /\
   iref s' 10 = Some 13 /\ iref s' 11 = Some 5 /\ drefs s' 5 = [11] /\ drefs s' 13 = [10] /\ drefs s' 2 = [6; 16] /\
-  uniq_clean 20 s (kids s RChildren 9) = false /\ uniq_clean 20 s' (kids s' RChildren 9) = true.
+  uniq_clean 20 s (kids s RChildren 9) = false /\ uniq_clean 20 s' (kids s' RChildren 9) = true /\
+  top s 0 = Some 12 /\ iref s 12 = Some 9 /\ drefs s 9 = [12] /\ par s RChildren 12 = None.
 Proof. vm_compute. repeat split. Qed.
 
-(* Full statement (same elaborated design, all non-leaf instances unique, fresh names): checked on
-   every run by the correspondence of the uniquify model (BFS over Definition.clone + add_definition
-   + rename + reference change) with the implementation and by the union-find elaboration oracle;
-   the Coq proof covers the well-formedness clause (above) and the fixpoint clause. *)
+(* The uniqueness clause without the two side conditions of C08_makes_unique (top definition
+   referenced by the top instance only; top instance parentless) is kept here as first written; it is
+   proved above under those conditions, which hold for every netlist whose top was set from a
+   definition. The remaining clauses (same elaborated design, fresh names) are checked on every run by
+   the correspondence of the uniquify model with the implementation and by the union-find elaboration
+   oracle. *)
 Definition C08_full : Prop := forall fuel x n x',
   uniquify fuel x n = (x', None) ->
   forall t d, top (st x') n = Some t -> iref (st x') t = Some d ->
